@@ -1,6 +1,7 @@
 """C41 — the parser terminates without panicking and locates its errors inside the input (PARTIAL by design)."""
 import json
 import os
+import time
 
 from checks import parse_common as P
 from checks import text_common as T
@@ -131,7 +132,7 @@ def gen_nesting_source(rng):
 
 def corr_sources(run, examples):
     rng = run.rng
-    n = 70 if run.tier == "quick" else 1500
+    n = 50 if run.tier == "quick" else 1500
     out = [("corpus", s) for s in CORPUS]
     for _ in range(n):
         out.append(("loop", gen_loop_source(rng)))
@@ -154,8 +155,8 @@ CORPUS = [
     "fn f():\n    if a:\n        if b:\n            return 1\n)\n",       # error after three DEDENT markers (column was 25 on a 1-character line)
     "stream X = ",                                                        # error at the end of a text without final newline (line was 2 of 1)
     "for i in 0..30:\n    x = (\n",                                       # nesting error inside the expansion (offset was 148 of 27 bytes)
-    "for a in 0..400:\n  for b in 0..250:\n    s{a}_{b}\n",               # exactly MAX_EXPANDED_LINES generated lines in the second pass
-    "for a in 0..400:\n  for b in 0..251:\n    s{a}_{b}\n",               # one more
+    "for a in 0..400:\n  for b in 0..250:\n    s\n",                      # exactly MAX_EXPANDED_LINES generated lines in the second pass
+    "for a in 0..400:\n  for b in 0..251:\n    s\n",                      # one more
     "é = (((((((((((((((((((((((((((x\n",
     "/* ((((((((((((((((((((((((((",                                      # unterminated block comment: its last byte is scanned as code
 ]
@@ -249,8 +250,11 @@ def check(run):
     examples = P.load_examples()
     child = P.Child(binpath)
     try:
+        t0 = time.time()
         srcs = correspond(run, child, examples)
+        t1 = time.time()
         explore(run, child, examples, srcs)
+        run.extra["phase_seconds"] = {"correspondence": round(t1 - t0, 1), "exploration": round(time.time() - t1, 1)}
     finally:
         child.close()
     run.extra["child_restarts"] = child.restarts
@@ -284,8 +288,10 @@ def correspond(run, child, examples):
         exprs.append("locate_case %s [%s]" % (T.g_cps(s), ";".join(str(p) for p in ps)) if not big else '""')
         for p in sp:
             exprs.append("srcloc_case %s %d" % (T.g_cps(s), p))
+    t_impl = time.time()
     try:
         model = coqtools.coq_eval("C41", IMPORTS, exprs, shard=max(25, len(exprs) // 16 + 1))
+        run.extra["model_eval_seconds"] = round(time.time() - t_impl, 1)
     except RuntimeError as e:
         run.tie_broken("model evaluation (coqc cases)", str(e))
         return srcs
@@ -328,8 +334,11 @@ def explore(run, child, examples, srcs):
     for name, text in examples:
         cases.append(("unmutated-example", text))
     nviol = {}
+    slow = []
     for lab, s in cases:
+        tq = time.time()
         ans = child.ask({"kind": "parse", "source": s}, TIME_LIMIT)
+        slow.append((round(time.time() - tq, 2), lab, len(s)))
         for l in lab.split("+"):
             run.count("mut:" + l)
         outcome = "ok" if "ok" in ans else ("err:" + ans["err"]["variant"] if "err" in ans else next(iter(ans)))
@@ -352,6 +361,7 @@ def explore(run, child, examples, srcs):
                                "contradicts": "property text (exploration half); for positions also C41_position_in_range (coq/theories/Parse/Props.v)"},
                               classes=classify(small, p2))
     run.extra["oracle_failures"] = nviol
+    run.extra["slowest_parse_calls"] = sorted(slow, reverse=True)[:5]
 
 
 def classify(source, probs):
